@@ -87,6 +87,16 @@ def run(tier, replay=None):
         parts["raid"] = c08.run(tier, v=v, memory_only=True)
         parts["crc"] = c04.run(tier, v=v, memory_only=True)
         parts["mem_zero"] = c20.run(tier, v=v, memory_only=True)
+        # the remaining data-plane entry points: histogram collectors (every variant x 9 input patterns x every length), ec_init_tables, generator matrices, matrix inversion
+        hm = build_harness("h_misc", ["h_misc.c"]); mo = os.path.join(wd, "misc.ndjson")
+        sh([hm, mo, "3300" if tier == "thorough" else "1300"], timeout=3000)
+        mc_, mf_ = 0, 0
+        for x in read_ndjson(mo):
+            mc_ += x["calls"]; mf_ += x["faults"]
+            if x["faults"] or x.get("scribbles"):
+                v.violation("%s:%s" % (x["fn"], "fault" if x["faults"] else "write-outside-destination"),
+                            "%s: %d faults, %d writes outside the destination in %d guarded calls; first failing case (%s) = %s" % (x["fn"], x["faults"], x.get("scribbles", 0), x["calls"], x["what"], x["bad"]), {"record": x})
+        parts["histogram_tables_matrices"] = {"calls": mc_, "faults": mf_}
     if replay:
         rp = json.load(open(replay))["replay"]
         if "scenario" not in rp: raise Infra("replay of data-plane findings: re-run the owning check (C03/C04/C08/C13/C20) with the recorded seed")
